@@ -89,6 +89,7 @@ def gen_case(rng, depth=3, hist=False, ids=None, max_ops=40, **genkw):
     case = {
         "witness": (rng.choice([True, "live"]) if rng.random() < 0.5 else False) if hist else False,
         "witness_late": rng.random() < 0.5,
+        "reuse_event": rng.choice(["replace", "mutate"]) if rng.random() < 0.15 else None,
         "imm_other": imm_other,
         "prog": prog,
         "text": text,
@@ -222,7 +223,8 @@ def run_impl(case, scratch=None):
                    answers=answers, imm=(lambda k: imm[k % len(imm)]) if imm else None,
                    mutate=case.get("mutate", False), as_file=as_file,
                    imm_other=(lambda k: case["imm_other"][k % len(case["imm_other"])]) if case.get("imm_other") else None,
-                   imm_sf=(lambda k: case["imm_sf"][k % len(case["imm_sf"])]) if case.get("imm_sf") else None)
+                   imm_sf=(lambda k: case["imm_sf"][k % len(case["imm_sf"])]) if case.get("imm_sf") else None,
+                   reuse_event=case.get("reuse_event"))
     if case.get("witness") and case.get("witness_late"):
         # yet another scheduler, constructed AFTER the one under test, with an execution engine of its own
         late = impl.Run(case["text"], ids=case["ids"], answers=lambda name, ctx: TERMINATOR if name != "p" else TERMINATOR_P)
